@@ -415,3 +415,23 @@ Definition mon_read := on_read mutf8_ok store mcmd mdecode mexec mfast_get mfast
 Definition mrun (g : cfg) (reads : list bytes) : mconn := fold_left (mon_read g) reads (conn_init store mcmd []).
 Definition mreference (stream : bytes) : list resp :=
   reference store mcmd mdecode mexec mkind CGet mstub_reply [] stream.
+
+(* ------------------------------------------------------------------ two clients over the mini backend (C05) *)
+Notation msys := (sys store mcmd) (only parsing).
+Definition mstep2 := step2 store mcmd mdecode mexec mkind CGet mstub_reply.
+Definition mrun2 := run2 store mcmd mdecode mexec mkind CGet mstub_reply.
+Definition msys_init (s : store) : msys := mkSys _ _ s (tx_idle mcmd) (tx_idle mcmd) [] [].
+Definition mget_reply := get_reply store mcmd mexec CGet.
+(* a client command: an array of bulk strings *)
+Definition frame (args : list bytes) : resp := RArr (map RBulk args).
+
+(* the value a key holds *)
+Definition value_of (s : store) (k : bytes) : option mval := lookup k s.
+(* KnownClass of finding C05-watch-nonstring: the watched key holds a non-string value both when
+   WATCH is issued (state sW) and when EXEC is issued (state sE) *)
+Definition holds_nonstring (s : store) (k : bytes) : bool :=
+  match lookup k s with
+  | Some (VStr _) | None => false
+  | Some _ => true
+  end.
+Definition nonstring_at_both (sW sE : store) (k : bytes) : bool := holds_nonstring sW k && holds_nonstring sE k.
